@@ -34,7 +34,13 @@ IHuge == Int_(2000000000)    INegHuge == Int_(-2000000000)
 \* the same map with its two keys in the order a Go caller / DAG-JSON gives and in the order DAG-CBOR gives (length-first)
 mAB == Map(<<Entry(<<97, 97>>, Int_(1)), Entry(<<98>>, Int_(2))>>)       \* {"aa": 1, "b": 2}
 mBA == Map(<<Entry(<<98>>, Int_(2)), Entry(<<97, 97>>, Int_(1))>>)       \* {"b": 2, "aa": 1}
-Lits == {mAB, Int_(0), Int_(1), Int_(2), Float2(2), sA, sAB, Bool(TRUE), Null, FHuge, FNegHuge, IHuge, INegHuge}
+\* lC1, lC1v, lC1z: three DIFFERENT links over one digest (raw codec, dag-cbor codec, CIDv0)
+lmAB == List(<<mAB>>)        \* [{"aa": 1, "b": 2}]: a map INSIDE a list literal is an unordered collection too
+lmBA == List(<<mBA>>)
+lC1 == Link("c1")
+lC1v == Link("c1v")
+lC1z == Link("c1z")
+Lits == {mAB, Int_(0), Int_(1), Int_(2), Float2(2), sA, sAB, Bool(TRUE), Null, FHuge, FNegHuge, IHuge, INegHuge, lC1, lmAB}
       \cup (IF Size = "thorough" THEN {NaN, Float2(3), List(<<Int_(1), Int_(2)>>), PInf} ELSE {})
 Pats == {<<97, 42>>, <<42, 98>>, <<92, 42>>, <<42, 97, 97>>}            \* a*   *b   \*   *aa (overlapping false start on "aaa")
 
@@ -72,7 +78,7 @@ Stmts == Leaves \cup Conns \cup Quants \cup Nested
 Absent == <<"absent">>
 Ent(key, v) == IF K(v) = "absent" THEN <<>> ELSE <<Entry(key, v)>>
 Datum(a, b, l, mm) == Map(Ent(<<97>>, a) \o Ent(<<98>>, b) \o Ent(<<108>>, l) \o Ent(<<109>>, mm))
-DA == {Absent, Int_(1), sA, FNegHuge, Str(<<97, 97, 97>>), Bytes(<<97, 98>>), Null, Float2(3), IHuge, mBA, mAB} \cup (IF Size = "thorough" THEN {Float2(2), NaN, FHuge, INegHuge} ELSE {})
+DA == {Absent, Int_(1), sA, FNegHuge, Str(<<97, 97, 97>>), Bytes(<<97, 98>>), Null, Float2(3), IHuge, mBA, mAB, lC1, lC1v, lC1z, lmAB, lmBA} \cup (IF Size = "thorough" THEN {Float2(2), NaN, FHuge, INegHuge} ELSE {})
 DB == {Absent, Int_(2), Int_(3)}
 DL == {Absent, List(<<>>), List(<<Int_(1), Int_(2)>>), List(<<Int_(2), sA>>), Int_(5),
        List(<<Map(<<Entry(<<120>>, Map(<<>>))>>), Map(<<>>)>>)}       \* [{x: {}}, {}]: .x.y? is missing-optional on the first, missing-required on the second
